@@ -346,7 +346,30 @@ func SegPoolW(t *rapid.T, n int, wild bool, w3 [3]int) []model.Seg {
 		default:
 			k = model.KMatchAll
 		}
-		pool = append(pool, SegOfKind(t, k, used, wild))
+		seg := SegOfKind(t, k, used, wild)
+		pool = append(pool, seg)
+		if k == model.KRegex && rapid.IntRange(0, 2).Draw(t, "twin") == 0 {
+			// a twin: the same segment - same literals, same bind names - with
+			// other expressions (routes that go through the one and through the
+			// other are different routes)
+			tw := model.Seg{Optional: seg.Optional}
+			changed := false
+			for _, e := range seg.Elems {
+				ne := model.Elem{Lit: e.Lit, Bind: e.Bind}
+				for _, pm := range e.Params {
+					if pm.IsRegex {
+						if re := pick(t, "twinexpr", Exprs).Re; re != pm.Value {
+							pm.Value, changed = re, true
+						}
+					}
+					ne.Params = append(ne.Params, pm)
+				}
+				tw.Elems = append(tw.Elems, ne)
+			}
+			if changed {
+				pool = append(pool, tw)
+			}
+		}
 	}
 	return pool
 }
